@@ -19,8 +19,8 @@ DRIVER_DEPS = ["ScoresVerif.Driver.C07"]
 LEVEL = "proof"
 TRUSTED = ["xarray interpolate_na / ffill / bfill / shift / integrate / sum(min_count) / broadcast are modelled by their documented "
            "meaning (Model/Cdf.lean, Model/CrpsCdf.lean) and tied to the library by the correspondence check only",
-           "the integral of a quadratic polynomial over a cell equals Simpson's rule on the cell (proved as an algebraic identity "
-           "for the antiderivative in Props/C07.simpson_eq_antiderivative; the Fundamental Theorem of Calculus itself is not re-proved)"]
+           "(no longer trusted) the exact method's cell sums equal the Lebesgue integral of w(x)(F(x)-H(x))^2 with Mathlib's "
+           "intervalIntegral: Props/C07Bridge.lean exact_eq_lebesgue (total, under, over), using Mathlib's fundamental theorem of calculus"]
 ASSUMPTIONS = ["ordinates and weights are dyadic (k/8), thresholds / observations small integers or halves: float arithmetic is exact "
                "or compared to 1e-9", "thresholds and observations are finite or NaN (no infinities)",
                "the score is observed per forecast case (preserve_dims = all non-threshold dims); the mean over cases is checked as a relation"]
@@ -40,8 +40,8 @@ MANIFEST = dict(
          "the exact integral computed by the Lean Spec from the ORIGINAL knots (fill as a function of the knots), plus the relations.",
     note="Trusted: Lean kernel; propext/Classical.choice/Quot.sound; SV.Fl (IEEE minus rounding/overflow/signed zero); py2lean; xarray "
          "interpolate_na / ffill / bfill / shift / integrate / sum(min_count) / broadcast modelled by documented meaning and compared, "
-         "not verified. 'Integral' is bridged algebraically (Simpson = antiderivative difference for quadratics), the Fundamental "
-         "Theorem of Calculus is not re-proved. Proved for the integration step on the filled common grid; grid construction and "
+         "not verified. 'Integral' is Mathlib's Lebesgue interval integral: exact_eq_lebesgue (Props/C07Bridge.lean) for the exact method; the trapz "
+         "method is stated as the trapezoid sum of the Brier decomposition. Proved for the integration step on the filled common grid; grid construction and "
          "filling are compared (model vs code) and checked against the knot-function Spec by the oracle, not proved. Known finding "
          "F18: a non-negative weight with a value above 1 is rejected (ValueError from fill_cdf's CDF guard) — Lean: "
          "weight_in_unit_accepted + weight_above_one_counterexample. Repaired during this work and kept as untagged regression "
